@@ -2051,7 +2051,8 @@ func isLit(t string) bool {
 // invokeKey: interface method calls are keyed "invoke:<pkg.Iface>.<Method>" when such a contract exists, else "invoke:<Method>".
 func (e *Exec) invokeKey(c *ssa.Call) string {
 	m := c.Call.Method.Name()
-	if n, ok := c.Call.Value.Type().(*types.Named); ok && n.Obj().Pkg() != nil {
+	vt := types.Unalias(c.Call.Value.Type())
+	if n, ok := vt.(*types.Named); ok && n.Obj().Pkg() != nil {
 		k := "invoke:" + n.Obj().Pkg().Path() + "." + n.Obj().Name() + "." + m
 		if e.cs != nil {
 			if _, ok := e.cs.Funcs[k]; ok {
@@ -2059,7 +2060,7 @@ func (e *Exec) invokeKey(c *ssa.Call) string {
 			}
 		}
 	}
-	if n, ok := c.Call.Value.Type().(*types.Named); ok && n.Obj().Pkg() == nil { // error
+	if n, ok := vt.(*types.Named); ok && n.Obj().Pkg() == nil { // error
 		k := "invoke:" + n.Obj().Name() + "." + m
 		if e.cs != nil {
 			if _, ok := e.cs.Funcs[k]; ok {
